@@ -368,6 +368,29 @@ PROPS = {
         },
         "assumptions": [LIBLZMA],
     },
+    "C17": {
+        "level": "exploration",
+        "variants": {
+            "quick": [("rel", {"shards": 8})],
+            "thorough": [("rel", {"timeout": 4 * 3600, "shards": 4})],
+        },
+        "floors": ["encoder_measurements", "decoder_measurements", "limit_probes"],
+        "rule": "encoder: presets 0-9 and random in-range option vectors over a dictionary grid 4 KiB .. 64 MiB (thorough: "
+                ".. 768 MiB) x mode x match finder x lc/lp (LZMA1 up to 8/4): construct LZMAWriter / LZMA2Writer on a "
+                "discarding sink, compress 1 B - 300 KB, finish; the counting global allocator records the peak of bytes "
+                "allocated inside that window. decoder: the same dictionaries x lc/lp/pb, stream built separately, reader "
+                "constructed and drained inside the window. Oracles (factor fixed before measuring): peak <= estimate_KiB x "
+                "1024 (sound) and estimate_KiB x 1024 <= 4 x peak + 1 MiB (useful); by_props estimator agrees with the "
+                "lc/lp one. limits: .lzma headers (dict 0 .. 0xFFFFFFF0, all lc/lp/pb) x limit {0, need-1, need, need+1, "
+                "MAX}: limit < need => Err(OutOfMemory) with <= 64 KiB allocated in the call, limit >= need => Ok. Cell = "
+                "side|component|option classes.",
+        "manifest": {
+            "text": "Exploration of the estimator grid with a counting allocator as the measuring monitor.",
+            "note": "Dictionaries >= 1 GiB (2 GiB+) are not measured; the allocator counts requested bytes, not touched pages.",
+            "technique": "runtime monitoring: counting global allocator (peak in call window) vs estimator oracle",
+        },
+        "assumptions": ["peak = bytes requested from the global allocator inside the call window; harness buffers are allocated outside it"],
+    },
     "C18": {
         "level": "exploration",
         "variants": {
